@@ -283,9 +283,12 @@ where
                 let text = editor.text_mut();
 
                 let tokens = Tokens::new(text);
-                self.process_input::<C, _>(tokens, processor)?;
+                let res = self.process_input::<C, _>(tokens, processor);
 
+                // input is tokenized in place, so it must be
+                // dropped even if processing has failed
                 editor.clear();
+                res?;
 
                 self.writer.flush_str(self.prompt)?;
             }
